@@ -1,6 +1,6 @@
 """C12 - solution queries return the right numbers for the right objects."""
 from harness import core
-from checks import suite_query, suite_partition
+from checks import suite_query, suite_partition, suite_interleave
 
 
 def main(tier):
@@ -21,6 +21,9 @@ def main(tier):
     # (measured > 15 min and 14 GB in the parent process), far beyond this property's budget; the
     # thorough tier of C12 deepens Query.tla instead (3 arrays, histories and chains of length 3).
     suite_partition.run(rep, 'quick', props=('C12',))
+    # histories: solve - query - extend - solve again (solve / soc_solve, several interfaces) - query, on all five model classes,
+    # two models interleaved: x() and an affine expression against x.get() after every solve (Interleave.tla)
+    suite_interleave.run(rep, tier, props=('C12',))
     if tier != 'quick':
         rep.note('Partition.tla part run with its quick constants in every tier (see checks/c12.py)')
     return rep.finish()
